@@ -334,3 +334,37 @@ def t_precision(rep, prog, rule, report_empty=True):
             else:
                 rep.unk(rule, "%s|outside%d" % (key0, v), where,
                         "precision %d of interval %s is outside the arms' hull" % (v, list(iv)))
+
+
+def headroom(rep, prog, rule):
+    rep.rule(rule, "the largest precision NormalizerNN::new can choose (its loop bound; the only "
+             "other limit is the size of the largest weight, which a strong reduction makes "
+             "arbitrarily small) leaves room in the accumulator: the kernels add data_bits-wide "
+             "samples times weights that sum to 2^precision into acc_bits-wide signed lanes, so "
+             "precision + data_bits must stay below acc_bits - 1 (data 8 / acc 32 for "
+             "Normalizer16, 16 / 64 for Normalizer32); precision >= acc_bits - data_bits overflows "
+             "already for a flat white image and a non-negative filter, the two values below that "
+             "depend on the negative lobes of the filter")
+    for which, data_bits, acc_bits in (("Normalizer16", 8, 32), ("Normalizer32", 16, 64)):
+        try:
+            iv, f = precision_interval(prog, which)
+        except Exception:
+            iv, f = None, None
+        key = "%s|precision-headroom" % which
+        if iv is None:
+            rep.unk(rule, key, "-", "interval of %s::precision not computable" % which)
+            continue
+        rep.touch(f)
+        hi = iv[1]
+        if hi + data_bits <= acc_bits - 3:
+            rep.ok(rule, key, f.loc, "precision <= %d: %d + %d data bits + 2 guard bits fit the %d-bit "
+                   "accumulator" % (hi, hi, data_bits, acc_bits))
+        elif hi + data_bits >= acc_bits:
+            rep.bad(rule, key, f.loc, "%s::new can choose a precision of up to %d (for a strong "
+                    "reduction the weights are small enough), but %d-bit samples times weights that "
+                    "sum to 2^%d do not fit the %d-bit accumulator lanes of the kernels: a white "
+                    "area wraps to a negative sum and is stored as 0 (or panics in debug builds)"
+                    % (which, hi, data_bits, hi, acc_bits))
+        else:
+            rep.unk(rule, key, f.loc, "precision up to %d leaves %d guard bit(s): overflow depends "
+                    "on the negative lobes of the filter" % (hi, acc_bits - 1 - data_bits - hi))
